@@ -1167,6 +1167,49 @@ theorem pcr_piece_marked (P : Primers) (hP : PrimersOk P) (o : Opts) (hc : o.cir
       rw [dirS, d1] at d2; cases d2
     · exact ⟨Or.inr hy, (block_piece_marked false _ _ hP.reverse hP.cfwd _ _ (Int.natCast_nonneg _) o hc seq a b hab hb y hy).mp hs⟩
 
+theorem ampLo_shiftAmp (f : Int) (x : Amplicon) : ampLo (shiftAmp f x) = ampLo x + f := by
+  unfold ampLo shiftAmp shiftHit; simp only []; omega
+
+theorem ampHi_shiftAmp (f : Int) (x : Amplicon) : ampHi (shiftAmp f x) = ampHi x + f := by
+  unfold ampHi shiftAmp shiftHit; simp only []; omega
+
+/-- **one marked piece = the records of the template lying inside it, every linear mode** (`pcr_piece_iff` without its
+hypothesis on the flanks): the records the marked piece `[a, b)` reports are, in the coordinates of the template, exactly the
+records of the template whose two sites and window lie inside `[a, b)` -/
+theorem pcr_piece_marked_iff (P : Primers) (hP : PrimersOk P) (o : Opts) (hc : o.circular = false) (seq : Bytes) (a b : Nat)
+    (hab : a ≤ b) (hb : b ≤ seq.length) (x : Amplicon) :
+    (∃ y ∈ pcrLE (pieceEnds seq.length (a, b)) P o (seg seq a b), shiftAmp a y = x) ↔
+      x ∈ pcrL P o seq ∧ (a : Int) ≤ ampLo x ∧ ampHi x ≤ b := by
+  constructor
+  · rintro ⟨y, hy, rfl⟩
+    obtain ⟨h1, h2⟩ := (pcr_piece_marked P hP o hc seq a b hab hb y).mp hy
+    have hsp : 0 ≤ ampLo y ∧ ampHi y ≤ ((seg seq a b).length : Int) := by
+      rcases (mem_pcrL_iff P hP o hc _ y).mp h1 with hb1 | hb1
+      · have := block_span true _ _ hP.forward hP.crev _ _ (Int.natCast_nonneg _) o hc _ y hb1
+        exact ⟨this.1, this.2.2.1⟩
+      · have := block_span false _ _ hP.reverse hP.cfwd _ _ (Int.natCast_nonneg _) o hc _ y hb1
+        exact ⟨this.1, this.2.2.1⟩
+    rw [seg_length seq a b hb] at hsp
+    refine ⟨h2, ?_, ?_⟩
+    · rw [ampLo_shiftAmp]; omega
+    · rw [ampHi_shiftAmp]; omega
+  · rintro ⟨hx, h1, h2⟩
+    obtain ⟨y, hy, he⟩ := pcr_piece_complete P hP o hc seq a b hb x hx h1 h2
+    exact ⟨y, (pcr_piece_marked P hP o hc seq a b hab hb y).mpr ⟨hy, by rw [he]; exact hx⟩, he⟩
+
+/-- **duplicates of the fragmented search with marked pieces, every linear mode**: an amplicon of the template is reported for
+the two pieces `p` and `q` iff its two sites and its window lie inside both -/
+theorem pcr_fragment_duplicates_marked (P : Primers) (hP : PrimersOk P) (o : Opts) (hc : o.circular = false)
+    (seq : Bytes) (p q : Nat × Nat)
+    (hp : p.1 ≤ p.2 ∧ p.2 ≤ seq.length) (hq : q.1 ≤ q.2 ∧ q.2 ≤ seq.length) (x : Amplicon) :
+    ((∃ y ∈ pcrLE (pieceEnds seq.length p) P o (seg seq p.1 p.2), shiftAmp p.1 y = x) ∧
+      (∃ y ∈ pcrLE (pieceEnds seq.length q) P o (seg seq q.1 q.2), shiftAmp q.1 y = x)) ↔
+      x ∈ pcrL P o seq ∧ ((max p.1 q.1 : Nat) : Int) ≤ ampLo x ∧ ampHi x ≤ (min p.2 q.2 : Nat) := by
+  rw [pcr_piece_marked_iff P hP o hc seq p.1 p.2 hp.1 hp.2, pcr_piece_marked_iff P hP o hc seq q.1 q.2 hq.1 hq.2]
+  constructor
+  · rintro ⟨⟨h1, h2, h3⟩, _, h5, h6⟩; exact ⟨h1, by omega, by omega⟩
+  · rintro ⟨h1, h2, h3⟩; exact ⟨⟨h1, by omega, by omega⟩, h1, by omega, by omega⟩
+
 /-- **the fragmented search with marked pieces returns exactly the amplicons of the template — every linear mode**, flanks that
 may be clipped included (compare `pcr_fragmented`, which needs `hm`): union over the pieces = amplicons of the template, under
 the overlap condition of `pcr_fragmented_complete`. -/
